@@ -164,7 +164,7 @@ bool cmb_condition_signal(struct cmb_condition *cvp)
     return (cnt > 0u);
 }
 
-bool cmi_condition_cancel(struct cmb_condition *cvp,
+bool cmb_condition_cancel(struct cmb_condition *cvp,
                           struct cmb_process *pp)
 {
     cmb_assert_release(cvp != NULL);
@@ -174,10 +174,10 @@ bool cmi_condition_cancel(struct cmb_condition *cvp,
     cmb_logger_info(stdout, "Cancelling condition %s for process %s",
                     rbp->name, pp->name);
 
-    return cmb_resourceguard_cancel((struct cmb_resourceguard *)cvp, pp);
+    return cmb_resourceguard_cancel(&(cvp->guard), pp);
 }
 
-bool cmi_condition_remove(struct cmb_condition *cvp,
+bool cmb_condition_remove(struct cmb_condition *cvp,
                           const struct cmb_process *pp)
 {
     cmb_assert_release(cvp != NULL);
@@ -187,5 +187,5 @@ bool cmi_condition_remove(struct cmb_condition *cvp,
     cmb_logger_info(stdout, "Removing process %s from condition %s",
                     pp->name, rbp->name);
 
-    return cmb_resourceguard_remove((struct cmb_resourceguard *)cvp, pp);
+    return cmb_resourceguard_remove(&(cvp->guard), pp);
 }
